@@ -35,7 +35,7 @@ FAMS = ['OO', 'OI', 'IO', 'LO', 'OL', 'UO', 'QO', 'OU', 'OQ']
 
 def must_see(tier):
     m = {'ledger-checks': 20000, 'teardown-checks': 100,
-         'valgrind:evaluations': 500,
+         'valgrind:evaluations': 500, 'cycle-collections': 300,
          'height>=3': 10, 'evict-reload': 20}
     for op in ('setitem', 'delitem', 'pop', 'popitem', 'setdefault', 'update',
                'clear', 'get', 'keys-range', 'iterator-partial',
@@ -102,12 +102,98 @@ class World:
         return bad
 
 
+class CycKey(FKey):
+    """A key that can point back at its container (reference cycle)."""
+    __slots__ = ('ref', '__weakref__')
+
+
+class CycVal:
+    """A value that can point back at its container (reference cycle)."""
+    __slots__ = ('ref', '__weakref__')
+
+    def __eq__(self, o):
+        return self is o
+
+    def __hash__(self):
+        return id(self)
+
+
+def run_cycles(fam, kind, rng, rec):
+    """Garbage cycles through stored keys / values must be collectable:
+    every slot that owns a reference has to be reported by tp_traverse and
+    dropped by tp_clear, in leaves and in interior nodes (separators)."""
+    import weakref
+    is_mapping = kind in families.MAPPING_KINDS
+    is_tree = kind in families.TREE_KINDS
+    cls = fam.cls(kind, 'c')
+    if is_tree:
+        harness.set_node_sizes(cls, *gen.NODE_SIZES[rng.randrange(
+            len(gen.NODE_SIZES))])
+    n = rng.choice([1, 2, 5, 30]) if is_tree else rng.choice([1, 2, 7])
+    desc = dict(family=fam.name, kind=kind, impl='c', entries=n)
+    gc.collect()
+    c = cls()
+    refs = []
+    lo = 0 if fam.kc in 'UQ' else -3
+    for i in range(n):
+        k = CycKey(i) if fam.kc == 'O' else lo + i
+        if fam.kc == 'O':
+            k.ref = c
+            refs.append(weakref.ref(k))
+        if is_mapping:
+            if fam.vc == 'O':
+                v = CycVal()
+                v.ref = c
+                refs.append(weakref.ref(v))
+            else:
+                v = i
+            c[k] = v
+            del v
+        else:
+            c.add(k)
+        del k
+    # delete a few again so that stale separators keep deleted keys alive
+    if is_tree and n >= 5 and fam.kc == 'O':
+        for k in list(c.keys())[1:n:3]:
+            if is_mapping:
+                del c[k]
+            else:
+                c.remove(k)
+            del k
+    mode = rng.choice(['plain', 'iterator', 'lazy-seq'])
+    extra = None
+    if mode == 'iterator':
+        extra = iter(c)
+        try:
+            next(extra)
+        except StopIteration:
+            pass
+    elif mode == 'lazy-seq':
+        extra = c.keys()
+    del c, extra
+    gc.collect()
+    gc.collect()
+    rec.evaluations += 1
+    rec.ev('cycle-collections')
+    rec.seen(fam.name, kind, 'gc-cycle', mode, min(n, 5))
+    alive = sum(1 for r in refs if r() is not None)
+    if alive:
+        rec.violation('garbage-cycle-through-stored-object-not-collected',
+                      alive=alive, tracked=len(refs), mode=mode, **desc)
+    del refs
+
+
 def run_shard(spec, rec):
     fam = families.get(spec['family'])
     for h in range(spec['histories']):
         for kind in families.KINDS:
             rng = rng_for(spec['seed'], ID, spec['label'], kind, h)
             run_history(fam, kind, rng, rec, h)
+            if spec.get('variant') != 'vg' or h == 0:
+                for j in range(3):
+                    run_cycles(fam, kind, rng_for(spec['seed'], ID,
+                                                  spec['label'], kind, h,
+                                                  'cyc', j), rec)
 
 
 def run_history(fam, kind, rng, rec, h):
